@@ -265,8 +265,11 @@ def _gen_rand_case(rng, force):
         for g in glist:
             for p in g:
                 p[2] = None
-    return {"tracks": tracks, "res": res, "margin": margin, "profile": profile, "nanmode": nanmode,
+    out_ = {"tracks": tracks, "res": res, "margin": margin, "profile": profile, "nanmode": nanmode,
             "probes": _probes(rng, P, res, 10)}
+    if force.get("crowded"):
+        out_["limit_x"] = 4
+    return out_
 
 
 def _enum_cases(chunk):
